@@ -150,6 +150,7 @@ fn scheme_op(op: &str) -> Option<(&'static str, usize)> {
         "id" => ("+", 1),
         "tostr" => ("number->string", 1),
         "roundtrip" => ("c10-roundtrip", 1),
+        "tof64" => ("exact->inexact", 1),
         "tostrr" => ("number->string", 2),
         "roundtripr" => ("c10-roundtripr", 2),
         _ => return None,
